@@ -37,7 +37,8 @@ def validate_addresses(memory_width: int, first_address: int, last_address: int)
         )
 
     assert_address_in_memory(memory_width, first_address)
-    assert_address_in_memory(memory_width, last_address - 1)
+    if last_address != first_address:  # an empty range (e.g. 'reserve 0') has no last address
+        assert_address_in_memory(memory_width, last_address - 1)
 
 
 def add_segment_to_fjm(
